@@ -317,13 +317,26 @@ AbRet(ret) == CASE ret = "fin" -> "ab_fin" [] ret = "uret" -> "ab_uret" [] ret =
                 [] ret = "loop" -> "ab_loop" [] ret = "rkill" -> "ab_rkill"
 
 (* Association.abort() == _abort_blocking(block=True) called on thread f; `ret` = what follows *)
+\* AtomicOutcome: "test the outcome flags ... queue the primitive, set the flags, notify" as one step.  The code takes no
+\* lock there; TRUE is the (named) idealisation the exhaustive configurations use, FALSE splits abort() and the reactor's
+\* release branch at the point where another thread can get in between (the open finding "unsynchronised outcome flags":
+\* TLC then finds two terminal notifications).  A configuration overrides it with  AtomicOutcome <- ... .
+AtomicOutcome == TRUE
+AbortCommit(r1, n, f, ret) ==
+  LET r2 == [Put(r1, "provq", "ABORT") EXCEPT !.abt = TRUE, !.est = FALSE]
+      r3 == Fire(r2, "ABORTED") IN
+  KillEnter(r3, n, f, AbRet(ret))
 AbortCall(r, n, f, ret) ==
   \* (the guard also tests is_aborted / is_rejected since the repair of the repeated EVT_ABORTED, C06)
   IF r.sentAbort \/ r.rel \/ r.abt \/ r.rej THEN Cont(r, n, f, ret)
-  ELSE LET r1 == [r EXCEPT !.sentAbort = TRUE, !.ckpt = TRUE]
-           r2 == [Put(r1, "provq", "ABORT") EXCEPT !.abt = TRUE, !.est = FALSE]
-           r3 == Fire(r2, "ABORTED") IN
-       KillEnter(r3, n, f, AbRet(ret))
+  ELSE LET r1 == [r EXCEPT !.sentAbort = TRUE, !.ckpt = TRUE] IN
+       IF AtomicOutcome THEN AbortCommit(r1, n, f, ret)
+       ELSE [r1 EXCEPT ![f] = "ab_mid", ![RetF(f)] = ret]      \* guard passed; send_abort / flags / EVT_ABORTED still to come
+\* the second half of abort() when it is not atomic
+AbortMid(n, f) ==
+  LET r == nd[n] IN
+  /\ r[f] = "ab_mid"
+  /\ Upd(n, AbortCommit(r, n, f, r[RetF(f)]))
 
 \* _run_reactor entry: `_is_paused = False; while not self._kill:` -> parked in the loop-top sleep
 \* _run_reactor left through `_kill` set by another thread: an acceptor's run_reactor then calls kill() itself
@@ -393,10 +406,17 @@ RRel(n) ==      \* if is_established and acse.is_release_requested()
   LET r == nd[n] IN
   /\ r.apc = "r_rel"
   /\ IF r.est /\ r.userq # <<>> /\ Head(r.userq) = "REL_IND"
-     THEN Upd(n, KillEnter(Fire([Put([r EXCEPT !.userq = Tail(@)], "provq", "REL_RP")
-                                  EXCEPT !.rel = TRUE, !.est = FALSE, !.sentRel = TRUE], "RELEASED"),
-                           n, "apc", "fin"))
+     THEN IF AtomicOutcome
+          THEN Upd(n, KillEnter(Fire([Put([r EXCEPT !.userq = Tail(@)], "provq", "REL_RP")
+                                       EXCEPT !.rel = TRUE, !.est = FALSE, !.sentRel = TRUE], "RELEASED"),
+                                n, "apc", "fin"))
+          ELSE \* test passed, A-RELEASE-RP queued; is_released / EVT_RELEASED still to come
+               Upd(n, [Put([r EXCEPT !.userq = Tail(@)], "provq", "REL_RP") EXCEPT !.sentRel = TRUE, !.apc = "r_rel_mid"])
      ELSE Upd(n, [r EXCEPT !.apc = "r_abt"])
+RRelMid(n) ==
+  LET r == nd[n] IN
+  /\ r.apc = "r_rel_mid"
+  /\ Upd(n, KillEnter(Fire([r EXCEPT !.rel = TRUE, !.est = FALSE], "RELEASED"), n, "apc", "fin"))
 
 RAbt(n) ==      \* if acse.is_aborted(): ...; if not dul.is_alive(): ...
   LET r == nd[n] IN
@@ -564,10 +584,10 @@ PeerClose(n) ==
 
 ------------------------------------------------------------------------------
 DulStep(n)   == DulIO(n) \/ DulEvent(n)
-AssocStep(n) == AStart(n) \/ AccWait(n) \/ RTop(n) \/ RWait(n) \/ RMsg(n) \/ RRel(n) \/ RAbt(n)
-                \/ RIdle(n) \/ KillSpin(n, "apc")
+AssocStep(n) == AStart(n) \/ AccWait(n) \/ RTop(n) \/ RWait(n) \/ RMsg(n) \/ RRel(n) \/ RRelMid(n) \/ RAbt(n)
+                \/ RIdle(n) \/ KillSpin(n, "apc") \/ AbortMid(n, "apc")
 UserStep(n)  == QStart(n) \/ QConn(n) \/ QWait(n) \/ UAbort(n) \/ URelease(n) \/ RlSpin(n) \/ RlWait(n)
-                \/ UEcho(n) \/ ESpin(n) \/ EWait(n) \/ KillSpin(n, "upc")
+                \/ UEcho(n) \/ ESpin(n) \/ EWait(n) \/ KillSpin(n, "upc") \/ AbortMid(n, "upc")
 EnvStep(n)   == ArtimTick(n) \/ PeerClose(n) \/ \E f \in PeerFrames : PeerSend(n, f)
 
 Next == \E n \in Nodes : DulStep(n) \/ AssocStep(n) \/ UserStep(n) \/ EnvStep(n)
